@@ -338,11 +338,45 @@ def r03_5(chk):
     chk.floor("R03.5", 0, "expected-zero rule with embedded probe")
 
 
+GAP_SIBLINGS = ["get_degapped_relative_to", "get_gap_array", "no_degenerates", "omit_gap_pos", "iupac_consensus"]
+GAP_HELPERS = ("get_gap_array", "count_gaps_per_pos", "count_gaps_per_seq", "gap_vector")
+
+
+def _gap_vocabulary(fn):
+    """what the function means by 'gap': the single gap character (`.gap`), the set including ambiguity-with-gap
+    (`.gaps`), and gap-mask helpers called with their ambiguity-inclusive default"""
+    single = any(isinstance(x, ast.Attribute) and x.attr == "gap" for x in ast.walk(fn))
+    plural = any(isinstance(x, ast.Attribute) and x.attr == "gaps" for x in ast.walk(fn))
+    helpers = set()
+    for c in ast.walk(fn):
+        if isinstance(c, ast.Call) and isinstance(c.func, ast.Attribute) and c.func.attr in GAP_HELPERS:
+            amb = [norm(kw.value) for kw in c.keywords if kw.arg == "include_ambiguity"]
+            helpers.add(f"{c.func.attr}(include_ambiguity={amb[0] if amb else 'default True'})")
+    return single, plural, frozenset(helpers)
+
+
+def r03_6(chk):
+    chk.rule("R03.6", "the array-backed and the annotatable alignment class mean the same thing by 'gap' in their sibling implementations: both test the single gap character, or both the gap set incl. ambiguity, or both go through the same mask helper (stated limit as for the twins: moving the lookup into a helper on one side only is reported)")
+    m = chk.repo.module(ALN)
+    a, b = m.cls("ArrayAlignment"), m.cls("Alignment")
+    for name in GAP_SIBLINGS:
+        ra, rb = a.resolve(name), b.resolve(name)
+        if not ra or not rb or not isinstance(ra[1], ast.FunctionDef) or not isinstance(rb[1], ast.FunctionDef):
+            raise AnalysisError(f"gap sibling {name} missing")
+        if ra[1] is rb[1]:
+            continue
+        va, vb = _gap_vocabulary(ra[1]), _gap_vocabulary(rb[1])
+        desc = lambda v: ("single gap character" if v[0] else "") + (" gap set incl. ambiguity" if v[1] else "") + (" " + ", ".join(sorted(v[2])) if v[2] else "")  # noqa: E731
+        chk.decide(va == vb, "R03.6", key(m, name, f"{ra[0].name} vs {rb[0].name} gap vocabulary"), f"{m.loc(ra[1])} / {m.loc(rb[1])}", f"both use:{desc(va)}", f"{ra[0].name} uses:{desc(va) or ' nothing'} but {rb[0].name} uses:{desc(vb) or ' nothing'}: on a sequence with '?' or other gap-including ambiguity codes the two classes keep different columns")
+    chk.floor("R03.6", 4, "gap-relative sibling operations")
+
+
 def run(chk):
     r03_1(chk)
     r03_2(chk)
     r03_3(chk)
     r03_4(chk)
     r03_5(chk)
+    r03_6(chk)
     chk.assume("numpy basic slicing, reshape, .T alias their base array; take/fancy indexing/arithmetic/copy are fresh")
     chk.assume("history-state table: SeqsData.reversed_seqs, IndelMap.termini_unknown (curated: other optional constructor parameters are construction options, not state)")
